@@ -270,6 +270,7 @@ func (in *Interp) outcome(fr *Frame, f Value) (res Value) {
 	defer func() {
 		if r := recover(); r != nil {
 			if _, ok := r.(fatalStack); ok {
+				in.unwinding = false
 				res = "fatal:stack-overflow"
 				return
 			}
